@@ -1,5 +1,6 @@
 mod common;
 mod stream;
+mod rng;
 mod sign;
 mod prims;
 mod pwstr;
@@ -60,6 +61,8 @@ fn main() {
         "prims-sweep-c13" => prims::cmd_sweep_c13(rest),
         "prims-sweep-c09" => prims::cmd_sweep_c09(rest),
         "sign" => sign::cmd_sign(rest),
+        "rng-list" => rng::cmd_list(rest),
+        "rng-trace" => rng::cmd_trace(rest),
         "inc-splits" => inchash::cmd_splits(rest),
         "inc-replay" => inchash::cmd_replay(rest),
         "inc-trace" => inchash::cmd_trace(rest),
